@@ -272,7 +272,7 @@ def gen_fit(tier, seed):
             if kind in ("unbinned", "custom") and config in ("sources", "model-sources", "disabled-source", "everything"):
                 continue
             for state in ("not-fitted", "fitted", "fitted+asymmetric"):
-                if tier == "quick" and state == "fitted+asymmetric" and config not in ("plain", "constraints"):
+                if tier == "quick" and state == "fitted+asymmetric" and config not in ("plain", "constraints", "fixed+limited"):
                     continue
                 yield {"kind": kind, "config": config, "state": state}
 
